@@ -17,6 +17,16 @@ def kani_cmd(harnesses, jobs, harness_timeout, export_json, extra=()):
     return cmd
 
 
+def _unlimit_stack():
+    # CBMC recurses deeply on large array expressions (measured: SIGSEGV, status 139, with the
+    # default 8 MB stack on the [f64; 1024] register slabs of compiled_expr)
+    import resource
+    try:
+        resource.setrlimit(resource.RLIMIT_STACK, (resource.RLIM_INFINITY, resource.RLIM_INFINITY))
+    except Exception:
+        pass
+
+
 def run(harnesses, jobs=8, harness_timeout="10m", overall_timeout=3600, extra=()):
     """-> dict(status='ok'|'build_failed'|'timeout', results={harness: {...}}, wall_s, cmd, log_tail)"""
     fd, out_json = tempfile.mkstemp(prefix="kani_", suffix=".json", dir=os.path.join(VERIF, ".cache"))
@@ -26,7 +36,7 @@ def run(harnesses, jobs=8, harness_timeout="10m", overall_timeout=3600, extra=()
     env = dict(os.environ, CARGO_NET_OFFLINE="true")
     t0 = time.time()
     try:
-        p = subprocess.run(cmd, cwd=REPO, env=env, capture_output=True, text=True, timeout=overall_timeout)
+        p = subprocess.run(cmd, cwd=REPO, env=env, capture_output=True, text=True, timeout=overall_timeout, preexec_fn=_unlimit_stack)
         log = p.stdout + "\n" + p.stderr
         rc = p.returncode
     except subprocess.TimeoutExpired as e:
@@ -68,6 +78,8 @@ def run(harnesses, jobs=8, harness_timeout="10m", overall_timeout=3600, extra=()
             }
         res["kani_version"] = d["metadata"].get("kani_version")
         res["cbmc_version"] = d["tools"].get("cbmc")
+    crashed = set(re.findall(r"Checking harness (\S+?)\.\.\.\s*\n(?:Thread \d+: )?CBMC failed with status (\d+)", log))
+    res["cbmc_crash"] = bool(re.search(r"CBMC failed with status", log))
     # harnesses that never reported (timeout inside kani, ICE, ...)
     for h in harnesses:
         if h not in res["results"]:
